@@ -8,6 +8,7 @@ package confmap
 // small map alphabet against a reference recursive right-biased merge; typed whole-value and string-target checks.
 
 import (
+	"os"
 	"context"
 	"encoding/json"
 	"fmt"
@@ -152,6 +153,11 @@ func c12Ref(s string, def bool, visiting map[string]bool, top bool) (string, err
 				name = "aa:" + name
 			}
 			if strings.Contains(name, "$") {
+				if strings.Contains(s[i+2:end], "$$") {
+					// an ESCAPED sequence inside a reference's name (`${$${aa:B}}`): the statement can be read both ways ("$$ protects the
+					// following text" => literal, or "name contains $" => error) and expand.go documents it as unsupported: not compared
+					return "", c12RefErr{"unspecified: escape inside a reference name"}
+				}
 				return "", c12RefErr{"dollar in name"}
 			}
 			if !strings.HasPrefix(name, "aa:") {
@@ -314,22 +320,31 @@ func c12Expand(s string, def bool) (string, string) {
 	desc := func() string {
 		return fmt.Sprintf("%q default_scheme=%v: implementation=%#v (err=%v) string-field=%q reference=%q (err=%v)", s, def, got, gerr, strField, want, werr)
 	}
+	sub := func() string {
+		c := c12Subclass(s)
+		if c == "none" && os.Getenv("C12_DUMP_NONE") != "" {
+			c += ":" + s
+		}
+		return c
+	}
 	switch {
+	case werr != nil && strings.HasPrefix(werr.Error(), "unspecified"):
+		return "", ""
 	case gerr != nil && werr != nil:
 		return "", ""
 	case gerr != nil:
-		return "expansion-disagreement:root=" + c12Subclass(s), "implementation fails, reference does not: " + desc()
+		return "expansion-disagreement:root=" + sub(), "implementation fails, reference does not: " + desc()
 	case werr != nil:
-		return "expansion-disagreement:root=" + c12Subclass(s), "reference reports an error (" + werr.Error() + "), implementation does not: " + desc()
+		return "expansion-disagreement:root=" + sub(), "reference reports an error (" + werr.Error() + "), implementation does not: " + desc()
 	}
 	if gs := fmt.Sprint(got); gs != want {
 		if _, isStr := got.(string); isStr || !strings.HasPrefix(s, "${") {
-			return "expansion-disagreement:root=" + c12Subclass(s), "values differ: " + desc()
+			return "expansion-disagreement:root=" + sub(), "values differ: " + desc()
 		}
 	}
 	// "its original text when ... assigned to a string field"
 	if strErr == nil && strField != want {
-		return "expansion-disagreement:root=" + c12Subclass(s), "string-field target differs: " + desc()
+		return "expansion-disagreement:root=" + sub(), "string-field target differs: " + desc()
 	}
 	return "", ""
 }
